@@ -5,6 +5,7 @@
 include!(concat!(env!("OUT_DIR"), "/repo_mods.rs"));
 
 mod blackbox;
+mod cputime;
 mod crumb;
 mod eng;
 mod graph;
